@@ -27,6 +27,12 @@ std::istream & operator>>(std::istream & is, StringDelimiter<delimiter>& output)
 
 inline bool file_exists(std::filesystem::path p)
 {
+    // opening a directory succeeds on some platforms; only regular files can be read
+    std::error_code ec;
+    if (!std::filesystem::is_regular_file(p, ec))
+    {
+        return false;
+    }
     std::ifstream infile(p.string());
     return infile.good();
 }
